@@ -172,15 +172,22 @@ def run(ctx: Ctx) -> None:
     n4 = 0
     for f in prog.functions.values():
         for c_ in walk_local(f.node):
-            if not (isinstance(c_, ast.Call) and c_.args and isinstance(c_.args[0] if not (len(c_.args) > 1 and isinstance(c_.args[1], ast.List)) else c_.args[1], ast.List)):
+            if not isinstance(c_, ast.Call):
                 continue
-            lst = c_.args[1] if (len(c_.args) > 1 and isinstance(c_.args[1], ast.List)) else c_.args[0]
+            lsts = [a for a in list(c_.args) + [k.value for k in c_.keywords] if isinstance(a, ast.List)
+                    and any(isinstance(e, ast.Call) and call_name(e) == "ElitismStep" for e in a.elts)]
+            if not lsts:
+                continue
+            lst = lsts[0]
             members = [call_name(e) for e in lst.elts if isinstance(e, ast.Call)]
-            if not any(m == "ElitismStep" for m in members):
-                continue
             t = res.resolve(f, c_)
             if t.kind != "ctor" or t.cls is None:
-                continue
+                # not resolved through types (a front-end module outside the typed core): a unique step class of that name
+                cands_ = [k for k in prog.classes.values() if k.name == call_name(c_) and prog.lookup_method(k, "iterate") is not None]
+                if len(cands_) != 1:
+                    continue
+                from types import SimpleNamespace
+                t = SimpleNamespace(kind="ctor", cls=cands_[0])
             n4 += 1
             itf = prog.lookup_method(t.cls, "iterate")
             hosts.add(itf.fullname if itf else "")
@@ -188,6 +195,27 @@ def run(ctx: Ctx) -> None:
             ctx.ob("C16.R4", f, c_, f"ElitismStep is hosted by {t.cls.name}, which hands sub-steps the whole population", ok,
                    "" if ok else f"{t.cls.name}: {why}; elitism would only see part of the population and the best "
                                  f"individual can be lost")
+            # ... and the host itself receives the previous generation: it is not placed behind another step of a sequence
+            behind = None
+            pp = parent(c_)
+            if isinstance(pp, ast.Call) and call_name(pp) == "SequenceStep" and c_ in pp.args and pp.args.index(c_) >= 1:
+                behind = pp
+            elif isinstance(pp, (ast.List, ast.Tuple)) and isinstance(parent(pp), ast.Call) and call_name(parent(pp)) == "SequenceStep" and pp.elts.index(c_) >= 1:
+                behind = parent(pp)
+            elif isinstance(pp, ast.Assign) and len(pp.targets) == 1 and isinstance(pp.targets[0], ast.Name):
+                nm_ = pp.targets[0].id
+                for q in walk_local(f.node):
+                    if isinstance(q, ast.Call) and call_name(q) == "SequenceStep" and getattr(q, "lineno", 0) > c_.lineno:
+                        flat = [a for a in q.args] + [e_ for a in q.args if isinstance(a, (ast.List, ast.Tuple)) for e_ in a.elts]
+                        idxs = [i for i, a in enumerate(q.args) if isinstance(a, ast.Name) and a.id == nm_]
+                        # re-bound in between? (step = Parallel([...Elitism...]); step = Sequence(sel, step) re-binds after use: still behind)
+                        if idxs and min(idxs) >= 1:
+                            behind = q
+            n4 += 1
+            ctx.ob("C16.R4", f, behind or c_, f"the {t.cls.name} hosting ElitismStep receives the previous generation (it is not placed behind another step)",
+                   behind is None,
+                   "" if behind is None else f"'{norm(behind)[:70]}' runs another step first: elitism only sees what that step yields (e.g. tournament winners), "
+                                             f"so the best individual of the previous generation can be lost")
     ctx.floor("C16.R4", n4, 3, "builders placing ElitismStep under a parallel combinator")
 
 
